@@ -132,8 +132,9 @@ func VerifC04_CompactInvisible() {
 	after := verifC04ReadAll(v, ids)
 	for i := range ids {
 		if before[i].found {
-			if before[i].ttl {
-				// a TTL blob may legitimately expire between the two reads
+			if before[i].ttl && rt.Param("onesecond", 0) != 1 {
+				// a TTL blob may legitimately expire between the two reads (not when the whole run
+				// lies within one second: the shortest TTL is a minute)
 				if !after[i].found {
 					continue
 				}
@@ -141,7 +142,11 @@ func VerifC04_CompactInvisible() {
 			if len(before[i].data) == 0 {
 				rt.Assert(after[i].found, "readable-empty-blob-still-readable-after-commit@known:compaction-reload-drops-empty-blobs")
 			} else {
-				rt.Assert(after[i].found, "readable-blob-still-readable-after-commit")
+				if before[i].ttl {
+					rt.Assert(after[i].found, "unexpired-ttl-blob-still-readable-after-commit")
+				} else {
+					rt.Assert(after[i].found, "readable-blob-still-readable-after-commit")
+				}
 			}
 			if after[i].found {
 				rt.Assert(rt.BytesEq(after[i].data, before[i].data), "content-unchanged-by-compaction")
